@@ -317,3 +317,33 @@ def run_systematic(ctx: Ctx, cases, check_case, keep_one_in=1, label="systematic
             info.setdefault("classes", []).append(label)
         ctx.record(info, case)
     ctx.extra[label + "_cases"] = ctx.extra.get(label + "_cases", 0) + n
+
+
+# --------------------------------------------------------------------------- #
+# z3 'unknown' verdicts (harness-side observation; nothing in the repository is touched)
+
+_Z3_UNKNOWN = [0]
+
+
+def watch_z3():
+    """Count `unknown` verdicts of z3.  Exo treats them as 'cannot prove'; whether z3 gives up
+    ('incomplete quantifiers') depends on variable names and solver state, i.e. on the process
+    history (known finding C18-z3-unknown), so oracles that compare two runs of the same call
+    consult this counter before calling a difference a violation."""
+    try:
+        import z3
+    except Exception:
+        return _Z3_UNKNOWN
+    if getattr(z3.Solver.check, "_verif", False):
+        return _Z3_UNKNOWN
+    orig = z3.Solver.check
+
+    def check(self, *a):
+        r = orig(self, *a)
+        if str(r) == "unknown":
+            _Z3_UNKNOWN[0] += 1
+        return r
+
+    check._verif = True
+    z3.Solver.check = check
+    return _Z3_UNKNOWN
